@@ -924,7 +924,87 @@ func (pt *prattTables) checkRegexFlag(c *Ctx, r *Result, rule string) {
 			}
 		}
 	}
-	r.RequireMin(rule+" regex-flag obligations", n, 15)
+	// the advance after a prefix token in parseExpression: its flag must be true exactly for the
+	// prefix tokens whose nud goes on to parse an operand (or its own closing delimiter) and false
+	// for those whose nud returns at once (the operand is complete, an infix token follows)
+	for _, ci := range callsIn(parseExpr) {
+		if ci.Common().StaticCallee() != advance {
+			continue
+		}
+		call, ok := ci.(*ssa.Call)
+		if !ok {
+			continue
+		}
+		flag := call.Call.Args[len(call.Call.Args)-1]
+		if _, isK := flag.(*ssa.Const); isK {
+			if nx := pt.nextEvents(call, isEventCall); len(nx) == 1 && nx["H"] {
+				k := flag.(*ssa.Const)
+				if constant.BoolVal(k.Value) {
+					continue // the advance inside the loop (after an infix token): judged by the loop rule
+				}
+				// a constant false after every prefix token: wrong for the tokens that start an operand
+				for tok, objs := range pt.nuds {
+					f := sp.Func(objs[0].Name())
+					if f == nil {
+						continue
+					}
+					first := pt.firstEvents(f, isEventCall)
+					if (first["P"] || first["C"]) && !first["R"] {
+						n++
+						r.Add(Obligation{Rule: rule, Key: "regexflag:after-prefix:" + pt.tokName[tok], Fn: shortFn(parseExpr), Pos: c.W.Pos(call.Pos()), Nontrivial: true, Verdict: Finding,
+							Reason: fmt.Sprintf("after the prefix token %s an operand follows (%s parses one next), but the lexer is not allowed to read a regex there: `%s/re/...` lexes / as division", pt.tokName[tok], objs[0].Name(), pt.tokLex[tok])})
+					}
+				}
+			}
+			continue
+		}
+		pc, ok := flag.(*ssa.Call)
+		var pred *ssa.Function
+		if ok {
+			pred = pc.Call.StaticCallee()
+		}
+		if pred == nil || len(pred.Params) != 1 {
+			r.Add(Obligation{Rule: rule, Key: "regexflag:after-prefix:flag", Fn: shortFn(parseExpr), Pos: c.W.Pos(call.Pos()), Nontrivial: true, Verdict: Undecided,
+				Reason: "the allowRegex flag after a prefix token is neither a constant nor a predicate of the token type"})
+			continue
+		}
+		var toks []string
+		for tok := range pt.nuds {
+			toks = append(toks, tok)
+		}
+		sort.Strings(toks)
+		for _, tok := range toks {
+			objs := pt.nuds[tok]
+			f := sp.Func(objs[0].Name())
+			if f == nil {
+				continue
+			}
+			var tv int64
+			fmt.Sscan(tok, &tv)
+			got, okEval := evalPredicateOnConst(pred, tv, nil)
+			first := pt.firstEvents(f, isEventCall)
+			n++
+			o := Obligation{Rule: rule, Key: "regexflag:after-prefix:" + pt.tokName[tok], Fn: shortFn(parseExpr), Pos: c.W.Pos(call.Pos()), Nontrivial: true}
+			wantTrue := (first["P"] || first["C"]) && !first["R"]
+			wantFalse := first["R"] && !first["P"] && !first["C"] && !first["H"]
+			switch {
+			case !okEval:
+				o.Verdict, o.Reason = Undecided, "cannot evaluate "+pred.Name()+" on "+pt.tokName[tok]
+			case wantTrue && got:
+				o.Verdict, o.Reason = Discharged, fmt.Sprintf("%s starts an operand (%s parses an expression or its closing delimiter next) and a regex may follow it", pt.tokName[tok], objs[0].Name())
+			case wantFalse && !got:
+				o.Verdict, o.Reason = Discharged, fmt.Sprintf("%s is a complete operand (%s returns without consuming more) and `/` after it is division", pt.tokName[tok], objs[0].Name())
+			case wantTrue && !got:
+				o.Verdict, o.Reason = Finding, fmt.Sprintf("an operand follows the prefix token %s but a regex may not start there", pt.tokName[tok])
+			case wantFalse && got:
+				o.Verdict, o.Reason = Finding, fmt.Sprintf("%s is a complete operand, yet `/` after it would be lexed as a regex instead of division", pt.tokName[tok])
+			default:
+				o.Verdict, o.Reason = Undecided, fmt.Sprintf("cannot classify what follows the prefix token %s (%v)", pt.tokName[tok], first)
+			}
+			r.Add(o)
+		}
+	}
+	r.RequireMin(rule+" regex-flag obligations", n, 30)
 	// lexer.next starts by skipping whitespace
 	next := c.W.Fn("jparse.(*lexer).next")
 	skip := c.W.Fn("jparse.(*lexer).skipWhitespace")
@@ -988,6 +1068,40 @@ func (pt *prattTables) nextEvents(from *ssa.Call, isEvent func(ssa.CallInstructi
 		if ins == ssa.Instruction(from) {
 			walk(b, i+1)
 		}
+	}
+	return out
+}
+
+// firstEvents: the kinds of the first parser event on each path from the entry of f.
+func (pt *prattTables) firstEvents(f *ssa.Function, isEvent func(ssa.CallInstruction) (string, bool)) map[string]bool {
+	out := map[string]bool{}
+	seen := map[*ssa.BasicBlock]bool{}
+	var walk func(b *ssa.BasicBlock)
+	walk = func(b *ssa.BasicBlock) {
+		if seen[b] {
+			return
+		}
+		seen[b] = true
+		for _, ins := range b.Instrs {
+			switch x := ins.(type) {
+			case ssa.CallInstruction:
+				if ev, ok := isEvent(x); ok {
+					out[ev] = true
+					return
+				}
+			case *ssa.Return:
+				out["R"] = true
+				return
+			case *ssa.Panic:
+				return
+			}
+		}
+		for _, s := range b.Succs {
+			walk(s)
+		}
+	}
+	if len(f.Blocks) > 0 {
+		walk(f.Blocks[0])
 	}
 	return out
 }
